@@ -177,7 +177,10 @@ func nowUnix() uint32 { return uint32(time.Now().Unix()) }
 
 var collNames = []sgbucket.DataStoreNameImpl{
 	{Scope: sgbucket.DefaultScope, Collection: sgbucket.DefaultCollection},
-	{Scope: "s1", Collection: "c1"},
+	// (collection 1 shares the default scope with collection 0: rosmar starts the per-collection feeds
+	// of a bucket-level feed scope by scope in map-iteration order, which no seam controls, so
+	// bucket-level feeds - always over collections 0 and 1 - stay within one scope)
+	{Scope: sgbucket.DefaultScope, Collection: "c1"},
 	{Scope: "s1", Collection: "c2"},
 }
 
@@ -249,14 +252,14 @@ func (w *World) StartFeed(h, coll int, id string, backfill uint64, dump, keysOnl
 }
 
 // StartBucketFeed starts a bucket-level (multi-collection) feed through handle h.
-func (w *World) StartBucketFeed(h int, colls []int, id string, backfill uint64, dump bool, stepFn func() int) (*FeedLog, error) {
+func (w *World) StartBucketFeed(h int, colls []int, id string, backfill uint64, dump bool, ckptPrefix string, stepFn func() int) (*FeedLog, error) {
 	f := &FeedLog{ID: id, Done: make(chan struct{}), Term: make(chan bool), stepFn: stepFn}
 	scopes := map[string][]string{}
 	for _, c := range colls {
 		n := w.CollName[c]
 		scopes[n.Scope] = append(scopes[n.Scope], n.Collection)
 	}
-	args := sgbucket.FeedArguments{ID: id, Backfill: backfill, Dump: dump, Terminator: f.Term, DoneChan: f.Done, Scopes: scopes}
+	args := sgbucket.FeedArguments{ID: id, Backfill: backfill, Dump: dump, Terminator: f.Term, DoneChan: f.Done, Scopes: scopes, CheckpointPrefix: ckptPrefix}
 	err := w.Handles[h].StartDCPFeed(context.Background(), args, f.callback, nil)
 	return f, err
 }
